@@ -30,18 +30,19 @@ var hostPalette = []uint32{
 
 // generator produces ops online, looking at the world's state.
 type generator struct {
-	r        *rng
-	prof     string
-	maxOps   int
-	emitted  int
-	started  bool
-	finish   bool // in teardown phase
-	finStage int
-	sloppy   bool // teardown deliberately leaves things behind
-	nextVer  int
-	weights  []wop
-	blockMin int // smallest preferred block size of the device
-	script   []Op
+	r         *rng
+	prof      string
+	maxOps    int
+	emitted   int
+	started   bool
+	finish    bool // in teardown phase
+	finStage  int
+	sloppy    bool // teardown deliberately leaves things behind
+	sloppyDed bool
+	nextVer   int
+	weights   []wop
+	blockMin  int // smallest preferred block size of the device
+	script    []Op
 	// defrag driving state
 	dMovesLeft int
 	ignBlock   int // core3: memory id of the block that got ignored moves in the current pass, or -1
@@ -162,7 +163,7 @@ func makeCfg(prof string, r *rng) WorldCfg {
 
 func newGenerator(prof string, r *rng, maxOps int) *generator {
 	g := &generator{r: r, prof: prof, maxOps: maxOps, keep: map[int]bool{}, poolTried: map[int]bool{}}
-	g.sloppy = r.chance(15)
+	g.sloppy = r.chance(30)
 	switch prof {
 	case "basic":
 		g.weights = []wop{{"alloc", 40}, {"allocn", 6}, {"free", 30}, {"freen", 3}, {"stats", 1}, {"rw", 4}}
@@ -179,7 +180,7 @@ func newGenerator(prof string, r *rng, maxOps int) *generator {
 	case "malformed":
 		g.weights = []wop{{"bad", 45}, {"alloc", 15}, {"palloc", 8}, {"free", 12}, {"mkpool", 4}, {"map", 3}, {"unmap", 3}, {"flush", 4}, {"defrag", 4}, {"stats", 1}}
 	case "teardown":
-		g.weights = []wop{{"alloc", 30}, {"palloc", 15}, {"free", 20}, {"mkpool", 6}, {"rmpool", 4}, {"cbuf", 5}, {"dres", 4}, {"map", 4}, {"allocm", 4}, {"destroy", 2}, {"rmpoolbusy", 2}}
+		g.weights = []wop{{"alloc", 30}, {"palloc", 15}, {"free", 20}, {"mkpool", 6}, {"rmpool", 4}, {"cbuf", 5}, {"dres", 4}, {"map", 4}, {"allocm", 4}, {"destroy", 2}, {"rmpoolbusy", 2}, {"lalloc", 10}}
 	case "core":
 		g.weights = []wop{{"alloc", 24}, {"lalloc", 12}, {"allocm", 6}, {"palloct", 14}, {"allocn", 5}, {"free", 22}, {"freen", 3},
 			{"map", 6}, {"unmap", 6}, {"rw", 3}, {"mkpoolt", 4}, {"rmpool", 2}, {"stats", 1}, {"fault", 3}}
@@ -583,7 +584,7 @@ func (g *generator) genBad(w *World) (Op, bool) {
 	if len(ps) > 0 && r.chance(50) {
 		pool = g.pickOf(ps)
 	}
-	switch r.intn(22) {
+	switch r.intn(24) {
 	case 0: // oversize
 		return mkOp("alloc", a, r.pick(1<<40, 1<<62, bs*64, bs*9), 1, all, 0, 0, 0, 0, 0, pool), true
 	case 1: // zero / negative size
@@ -600,8 +601,8 @@ func (g *generator) genBad(w *World) (Op, bool) {
 		return mkOp("alloc", a, 100, 4, all, r.pick(uUnknown, uAuto, uAutoPreferDevice, uAutoPreferHost), r.pick(fDedicated|fNeverAllocate, fHostRandom|fHostSeqWrite, fHostAllowTransfer), 0, 0, 0, pool), true
 	case 7: // every auto usage + mapped without host access (default lists, pools, dedicated)
 		return mkOp("alloc", a, r.pick(100, 100, bs), 4, all, r.pick(uAuto, uAutoPreferDevice, uAutoPreferHost), fMapped|r.pick(0, 0, fDedicated), 0, 0, 0, r.pick(-1, pool)), true
-	case 8: // never allocate on empty allocator / huge never allocate
-		return mkOp("alloc", a, r.pick(100, bs*2), 4, all, 0, fNeverAllocate, 0, 0, 0, pool), true
+	case 8: // never allocate on empty allocator / huge never allocate / with an implied dedicated allocation (lazily allocated usage)
+		return mkOp("alloc", a, r.pick(100, bs*2), 4, all, r.pick(0, 0, uLazy), fNeverAllocate, 0, 0, 0, pool), true
 	case 9: // double free
 		for s := range w.sinfo {
 			if w.sinfo[s].everUsed && !w.sinfo[s].live {
@@ -686,6 +687,16 @@ func (g *generator) genBad(w *World) (Op, bool) {
 	case 21: // map something not mappable
 		if s := g.pickOf(g.liveSlots(w, nil)); s >= 0 {
 			return mkOp("map", s), true
+		}
+	case 22: // pool priority outside [0,1] (with and without preallocated blocks); a valid one now and then
+		for p := 0; p < maxPools; p++ {
+			if !w.pools[p].live {
+				return mkOp("mkpoolp", p, r.intn(nt), r.pick(0, bs), r.pick(0, 0, 1, 2), r.pick(-1000, -1, 1001, 1500, 2000, 700)), true
+			}
+		}
+	case 23: // allocate from a pool (a pool wrongly accepted with an invalid priority panics here)
+		if len(ps) > 0 {
+			return mkOp("alloc", a, r.rangeIncl(16, max(16, bs/4)), 4, all, 0, 0, 0, 0, 0, g.pickOf(ps)), true
 		}
 	}
 	return Op{}, false
@@ -929,6 +940,11 @@ func (g *generator) genNamed(w *World, name string) (Op, bool) {
 		if ok && extra&fDedicated != 0 && r.chance(50) {
 			op.Args[1] = r.rangeIncl(g.minBlock(w)/2, g.minBlock(w)*3)
 		}
+		if ok && extra&fNeverAllocate != 0 && r.chance(20) {
+			// NeverAllocate together with a usage that implies a dedicated allocation: must be refused
+			// without any vkAllocateMemory
+			op.Args[4], op.Args[5] = uLazy, op.Args[5]&^(fHostRandom|fHostSeqWrite|fHostAllowTransfer|fMapped)
+		}
 		return op, ok
 	case "palloc":
 		ps := g.livePools(w)
@@ -1098,12 +1114,32 @@ func (g *generator) teardown(w *World) (Op, bool) {
 		}
 		return mkOp("dfin", d), true
 	}
+	if g.sloppy && g.finStage == 0 && !g.sloppyDed {
+		// half of the sloppy teardowns first make one dedicated allocation in the highest memory type and
+		// leave it behind: Destroy has to notice live dedicated allocations in EVERY memory type
+		g.sloppyDed = true
+		if a := g.freeSlot(w); a >= 0 && g.r.chance(50) {
+			nt := len(w.cfg.Dev.Types)
+			g.keep[a] = true
+			return mkOp("alloc", a, g.r.rangeIncl(64, 4096), 16, 1<<uint(nt-1), uUnknown, fDedicated, 0, 0, 0, -1), true
+		}
+	}
 	if g.sloppy && g.finStage == 0 {
 		// leave things behind deliberately: go straight to destroying pools / the allocator
 		g.finStage = 1
 		keep := g.r.rangeIncl(1, 3)
 		live := g.liveSlots(w, nil)
 		sort.Ints(live)
+		// put allocations that demanded dedicated memory outside pools first, highest memory type first:
+		// Destroy has to notice a live dedicated allocation in every memory type
+		sort.SliceStable(live, func(i, j int) bool {
+			di := w.sinfo[live[i]].wantDed && w.sinfo[live[i]].pool < 0
+			dj := w.sinfo[live[j]].wantDed && w.sinfo[live[j]].pool < 0
+			if di != dj {
+				return di
+			}
+			return di && w.slots[live[i]].MemoryTypeIndex() > w.slots[live[j]].MemoryTypeIndex()
+		})
 		if len(live) > keep {
 			// free all but a few through the normal path first
 			g.finStage = 0
